@@ -331,3 +331,16 @@ func nativeSelect(hasDefault bool, cases []Case) int {
 		runtime.Gosched()
 	}
 }
+
+// LenAny is len(ch) for any channel type.
+func LenAny(ch any) int {
+	s := cur
+	if s == nil {
+		return reflect.ValueOf(ch).Len()
+	}
+	c := s.vc(ch)
+	if c == nil {
+		return 0
+	}
+	return len(c.q)
+}
